@@ -150,6 +150,15 @@ def _calls(obj, X, C, is_flow, b):
     return out
 
 
+def _cp(obj):
+    """deep copy where possible; a module holding a non-leaf tensor attribute cannot be deep-copied - then the object itself is used
+    (evaluation-mode calls do not change it)"""
+    try:
+        return copy.deepcopy(obj)
+    except RuntimeError:
+        return obj
+
+
 def _same(a, b):
     if isinstance(a, str) or isinstance(b, str):
         return a == b
@@ -217,7 +226,7 @@ def run_case(case):
         A.eval()
         B.eval()
         with torch.no_grad():
-            before_A, before_B = _calls(copy.deepcopy(A), X, C, is_flow, bA), _calls(copy.deepcopy(B), X, C, is_flow, bA)
+            before_A, before_B = _calls(_cp(A), X, C, is_flow, bA), _calls(_cp(B), X, C, is_flow, bA)
         differ = any(not _same(before_A[k], before_B[k]) for k in before_A)
         sd = A.state_dict()
         if case["via_buffer"]:
@@ -232,7 +241,7 @@ def run_case(case):
             res.nontrivial = True
             return res
         with torch.no_grad():
-            rA, rB = _calls(copy.deepcopy(A), X, C, is_flow, bA), _calls(copy.deepcopy(B), X, C, is_flow, bA)
+            rA, rB = _calls(_cp(A), X, C, is_flow, bA), _calls(_cp(B), X, C, is_flow, bA)
         for k in rA:
             if not _same(rA[k], rB[k]):
                 d = "exception pattern differs" if isinstance(rA[k], str) or isinstance(rB[k], str) else \
@@ -242,7 +251,7 @@ def run_case(case):
                 res.nontrivial = True
                 return res
         # ---- the same training-mode call on copies of both (initialisation flags / statistics must have travelled)
-        A2, B2 = copy.deepcopy(A).train(), copy.deepcopy(B).train()
+        A2, B2 = _cp(A).train(), _cp(B).train()
         Xt, Ct = _inputs(case, bA, ctxw, 4, case["seed"] + 1234)
         with torch.no_grad():
             torch.manual_seed(5)
